@@ -23,7 +23,9 @@ Fixpoint spec_flags (tid : N) (to : saddr) (used : bool) (msgs : list (N * saddr
   match msgs with
   | [] => []
   | (t, from) :: r =>
-      let ok := negb used && (t =? tid) && (fst from =? fst to) && (snd from =? snd to) in
+      (* (a request sent to the unspecified ip 0.0.0.0 - a local node's own report of its address - is answered from
+         whatever ip the host gave that socket: there 'the address it was sent to' is the port; a reading decision) *)
+      let ok := negb used && (t =? tid) && ((fst to =? 0) || (fst from =? fst to)) && (snd from =? snd to) in
       ok :: spec_flags tid to (used || ok) r
   end.
 
